@@ -236,6 +236,10 @@ def ct2d_cases(draw, max_side):
     vdtype = draw(st.sampled_from(["int32", "int64", "uint8"])) if ckind == "int" else draw(st.sampled_from(["float64", "float32"]))
     nc = draw(st.integers(1, 6))
     calph = draw(st.permutations([c for c in CAT_ALPH[ckind] if not (vdtype == "uint8" and c < 0)]))[:nc]
+    if vdtype in ("int32", "int64", "float64") and draw(st.integers(0, 5)) == 0:
+        # large, nearly equal category codes: a category next to the nodata value is still a category
+        calph = draw(st.permutations([100000, 100001, 100002, 99999, 2500000, 2500001] if ckind == "int" else
+                                     [100000.0, 100000.5, 100001.0, 1e7, 1e7 + 1, 4e-9, 0.0]))[:nc]
     vdata = draw(S.grid(h, w, calph, specials=["nan", "inf", "-inf"] if ckind == "float" else []))
     values = {"dtype": vdtype, "data": vdata}
     nodata = draw(st.sampled_from([None, None, calph[0], 99]))
